@@ -431,7 +431,7 @@ fn gen(rng: &mut Rng, next: &mut u64) -> Scenario {
             let mut l = honest.clone();
             let i = rng.below(l.len() as u64) as usize;
             let j = rng.below(l.len() as u64) as usize;
-            let t = match rng.below(9) {
+            let t = match rng.below(13) {
                 0 => { l[i].0 = format!("{}x", l[i].0); "renamed-entry" }
                 1 => { rng.shuffle(&mut l); "reordered" }
                 2 => { l.remove(i); "dropped-entry" }
@@ -439,9 +439,41 @@ fn gen(rng: &mut Rng, next: &mut u64) -> Scenario {
                 4 => { l[i].1 = if rng.coin() { Dv::Junk(rng.range(1, 5)) } else { Dv::Of(fresh(rng).max(1) + 1_000_000) }; "value-changed" }
                 5 => { let v = l[i].1.clone(); l[i].1 = l[j].1.clone(); l[j].1 = v; "values-swapped" }
                 6 => { let e = l[i].clone(); l.push((e.0, l[j].1.clone())); "duplicate-name-later-wins" }
+                9 => {
+                    // every name given a directory prefix that preserves the order
+                    let pre = *rng.pick(&["x/", "immutable/", "./", "/", "a//b/./"]);
+                    for e in l.iter_mut() { e.0 = format!("{pre}{}", e.0); }
+                    "names-prefixed"
+                }
+                10 | 11 => {
+                    // every name prefixed by its position (the value order is the signed one) and the LAST
+                    // components of two entries exchanged (or one of them dressed as "name/." , "name/")
+                    let names: Vec<String> = l.iter().map(|e| e.0.clone()).collect();
+                    let mut lastc = names.clone();
+                    if i != j { lastc.swap(i, j); }
+                    for (k, e) in l.iter_mut().enumerate() {
+                        let tail = match rng.below(6) { 0 => "/", 1 => "/.", _ => "" };
+                        e.0 = format!("{k:05}/{}{tail}", lastc[k]);
+                    }
+                    "names-position-prefixed-last-components-exchanged"
+                }
+                12 => {
+                    // path-like names without a file name
+                    l[i].0 = format!("{}/..", l[i].0);
+                    l.push((".".into(), Dv::Junk(6)));
+                    l.push(("/".into(), Dv::Junk(5)));
+                    "names-without-file-name"
+                }
                 7 => { l.push(("not-a-number.chunk".into(), Dv::Junk(9))); l.push((format!("{}.chunk", last + 5), Dv::Junk(8))); l.insert(0, ("".into(), Dv::Junk(7))); "ignorable-entries" }
                 _ => { s.source = Source::Served(None, rng.coin()); "not-json" }
             };
+            if t == "names-position-prefixed-last-components-exchanged" && rng.coin() && i < s.entries.len() && j < s.entries.len() {
+                // ... and the restored directory follows: the contents of the two files are exchanged
+                let k = s.entries[i].kind.clone();
+                s.entries[i].kind = s.entries[j].kind.clone();
+                s.entries[j].kind = k;
+                kinds.push("dir:contents-exchanged-accordingly".into());
+            }
             if t != "not-json" {
                 s.source = Source::Served(Some(l), rng.coin());
             }
